@@ -17,21 +17,41 @@ MOD = "signal_hook_registry::half_lock::"
 
 
 class Roles:
-    """fields of the half lock located by type"""
+    """fields of the half lock located by type — in HalfLock itself or in a private struct of the module it embeds (a `ReaderSlots`
+    holding the generation and the counters, say). A role is (owning type path, field name)."""
 
     def __init__(self, F):
-        a = F.adt(HL)
-        fs = a["variants"][0]["fields"]
-        self.ptr = [f["name"] for f in fs if re.match(r"^core::sync::atomic::Atomic<\*mut \w+>$", f["ty"])]
-        self.slots = [f["name"] for f in fs if re.match(r"^\[core::sync::atomic::Atomic<usize>; \d+\]$", f["ty"])]
-        self.gen = [f["name"] for f in fs if f["ty"] == "core::sync::atomic::Atomic<usize>"]
-        self.mutex = [f["name"] for f in fs if f["ty"].startswith("std::sync::poison::mutex::Mutex<")]
-        for nm, v in (("snapshot pointer (AtomicPtr<T>)", self.ptr), ("reader slots ([AtomicUsize; N])", self.slots),
-                      ("generation (AtomicUsize)", self.gen), ("writer mutex", self.mutex)):
-            if len(v) != 1:
-                raise AnchorLost("half lock: cannot identify the %s field by type: %s" % (nm, v))
-        self.ptr, self.slots, self.gen, self.mutex = self.ptr[0], self.slots[0], self.gen[0], self.mutex[0]
-        self.n = int(re.search(r"; (\d+)\]", [f["ty"] for f in fs if f["name"] == self.slots][0]).group(1))
+        adts = {a["path"]: a for c, a in F.crate_items("adts")}
+        found = {"ptr": [], "slots": [], "gen": [], "mutex": []}
+        self.n = None
+
+        def visit(path, depth=0):
+            a = adts.get(path)
+            if a is None or len(a["variants"]) != 1 or depth > 3:
+                return
+            for f in a["variants"][0]["fields"]:
+                t = f["ty"]
+                if re.match(r"^core::sync::atomic::Atomic<\*mut \w+>$", t):
+                    found["ptr"].append((path, f["name"]))
+                elif re.match(r"^\[core::sync::atomic::Atomic<usize>; \d+\]$", t):
+                    found["slots"].append((path, f["name"]))
+                    self.n = int(re.search(r"; (\d+)\]", t).group(1))
+                elif t == "core::sync::atomic::Atomic<usize>":
+                    found["gen"].append((path, f["name"]))
+                elif t.startswith("std::sync::poison::mutex::Mutex<"):
+                    found["mutex"].append((path, f["name"]))
+                else:
+                    base = re.sub(r"<.*$", "", t)
+                    if base.startswith(MOD) and base in adts and base != path:
+                        visit(base, depth + 1)
+        if HL not in adts:
+            raise AnchorLost("type %s not found" % HL)
+        visit(HL)
+        for nm, k in (("snapshot pointer (AtomicPtr<T>)", "ptr"), ("reader slots ([AtomicUsize; N])", "slots"),
+                      ("generation (AtomicUsize)", "gen"), ("writer mutex", "mutex")):
+            if len(found[k]) != 1:
+                raise AnchorLost("half lock: cannot identify the %s field by type: %s" % (nm, found[k]))
+        self.ptr, self.slots, self.gen, self.mutex = found["ptr"][0], found["slots"][0], found["gen"][0], found["mutex"][0]
 
 
 def lock_types(F):
@@ -86,9 +106,9 @@ def src(F, nm, bb):
     return keyname(inline.origin_of(F, nm, bb).name).split("::")[-1]
 
 
-def on_field(site, field):
+def on_field(site, role):
     bt, f = recv_field(site)
-    return f == field and bt is not None and HL in bt
+    return f == role[1] and bt is not None and role[0] in bt
 
 
 def closures_in(F, nm):
@@ -106,8 +126,11 @@ def closures_in(F, nm):
 def slot_borrows(nm, R):
     """(whole, indices): how the body borrows the reader-slot array"""
     whole = False; idx = []
-    for bl in nm.blocks:
-        for s in bl["s"]:
+    fl = flow(nm)
+    for bb, bl in enumerate(nm.blocks):
+        if bl.get("dead"):
+            continue
+        for si, s in enumerate(bl["s"]):
             if s["k"] != "assign":
                 continue
             r = s["r"]
@@ -115,7 +138,7 @@ def slot_borrows(nm, R):
             if not pl:
                 continue
             for n, p in enumerate(pl["p"]):
-                if p["k"] == "field" and p["n"] == R.slots and HL in (p.get("bt") or ""):
+                if p["k"] == "field" and p["n"] == R.slots[1] and R.slots[0] in (p.get("bt") or ""):
                     rest = pl["p"][n + 1:]
                     if not rest:
                         whole = True
@@ -123,7 +146,11 @@ def slot_borrows(nm, R):
                         if q["k"] == "cindex":
                             idx.append(q["i"])
                         elif q["k"] == "index":
-                            idx.append(("var", q["l"]))
+                            vs = {fold(e) for e in fl.local(q["l"], (bb, si))}
+                            if len(vs) == 1 and isinstance(list(vs)[0], int):
+                                idx.append(list(vs)[0])          # `slots[0]`: an index local holding a constant
+                            else:
+                                idx.append(("var", q["l"]))
     return whole, idx
 
 
